@@ -31,7 +31,7 @@ RULE = ('One transition = one clause family (core | order | scale | perm) of one
 ASSUMPTIONS = [
     'chemical lists: every subset of size 1-4 (thorough: 1-5) of (Methanol, Ethanol, Propanol, 1-Butanol), (Hexane, Heptane, Octane, Benzene, Toluene) '
     'and (Water, Ethanol, Methanol); packages: ideal (thermo.ideal()) and the default activity-coefficient package (Dortmund UNIFAC, ideal gas, no Poynting); '
-    'thorough adds Dortmund + IdealGasPoyintingCorrectionFactors on (Water, Ethanol, Methanol)',
+    'plus Dortmund + IdealGasPoyintingCorrectionFactors on the subsets of (Water, Ethanol, Methanol)',
     'compositions: simplex grid step 1/4 incl. zero components and vertices, plus 1e-8 trace entries; T in {260,300,350,400,480} K intersected with '
     'every listed chemical\'s Psat range; P in {5e3, 101325, 1e6, 3e6} Pa; scale k in {0.5, 2, 10}; nothing is claimed between grid points',
     'quick tier (activity-coefficient package): core clauses on the full T and P grids; scale and permutation clauses at one seed-rotated T and one seed-rotated P '
@@ -233,6 +233,15 @@ def solve(m, kind, spec, z, val):
 
 def npos(z): return sum(1 for v in z if v > 0)
 
+def rel(a, b):
+    """|a/b - 1| that never raises (flexsolve switches numpy to divide/invalid='raise' process-wide; a broken solver may return 0 or nan)"""
+    try:
+        a = float(a); b = float(b)
+        if not (math.isfinite(a) and math.isfinite(b)) or b == 0.0: return float('inf')
+        return abs(a / b - 1.0)
+    except Exception:
+        return float('inf')
+
 def zclass(z):
     n = npos(z)
     tr = any(0 < v <= 1e-6 for v in z)
@@ -330,8 +339,9 @@ class Grid(System):
         if npos(zn) == 1:
             c = m.chems[int(np.argmax(zn))]
             return bool(c.Psat(m.lo) <= P <= c.Psat(m.hi))
-        if kind == 'bubble': return m.bubble_in_domain(zn, P)
-        return m.dew_in_domain(zn, P)
+        with np.errstate(all='ignore'):
+            if kind == 'bubble': return m.bubble_in_domain(zn, P)
+            return m.dew_in_domain(zn, P)
 
     def step(self, st, a):
         m = st.m; spec, val = st.spec, st.val
@@ -386,22 +396,23 @@ class Grid(System):
                     raise Violation('single-component', f'{who}: fractions {f.tolist()}', match=self._match(st, kind, z))
                 if spec == 'T':
                     ref = float(c.Psat(val))
-                    if not abs(P / ref - 1) <= 1e-12:
-                        raise Violation('single-component', f'{who}: P={P!r}, Psat_{c.ID}({val})={ref!r}', match=self._match(st, kind, z), residual=abs(P / ref - 1))
+                    if not rel(P, ref) <= 1e-12:
+                        raise Violation('single-component', f'{who}: P={P!r}, Psat_{c.ID}({val})={ref!r}', match=self._match(st, kind, z), residual=rel(P, ref))
                 else:
                     ref = float(c.Tsat(val, check_validity=False))
                     if not abs(T - ref) <= 1e-9:
                         raise Violation('single-component', f'{who}: T={T!r}, Tsat_{c.ID}({val})={ref!r}', match=self._match(st, kind, z), residual=abs(T - ref))
                     back = float(c.Psat(T))
                     tol = 2e-2 if val == 101325.0 else 1e-5      # Tsat(101325) is the tabulated normal boiling point
-                    if not abs(back / val - 1) <= tol:
-                        raise Violation('single-component', f'{who}: Psat_{c.ID}(T={T}) = {back}, not {val}', match=self._match(st, kind, z), residual=abs(back / val - 1))
+                    if not rel(back, val) <= tol:
+                        raise Violation('single-component', f'{who}: Psat_{c.ID}(T={T}) = {back}, not {val}', match=self._match(st, kind, z), residual=rel(back, val))
             else:
-                if kind == 'bubble':
-                    ref = m.bubble_y(zn, T, P, y=f.copy())
-                else:
-                    ref = m.dew_x(zn, T, P, f)
-                r_sum = abs(ref.sum() - 1.0); r_frac = float(np.max(np.abs(ref - f)))
+                with np.errstate(all='ignore'):      # the harness' own arithmetic must not raise
+                    if kind == 'bubble':
+                        ref = m.bubble_y(zn, T, P, y=f.copy())
+                    else:
+                        ref = m.dew_x(zn, T, P, f)
+                    r_sum = abs(ref.sum() - 1.0); r_frac = float(np.max(np.abs(ref - f)))
                 if not (r_sum <= 1e-6 and r_frac <= 1e-6):
                     raise Violation('residual', f'{who}: T={T}, P={P}, returned fractions {f.tolist()}; modified Raoult\'s law gives {ref.tolist()} '
                                     f'(sum {ref.sum()!r})', match=self._match(st, kind, z, zclass=zclass(z)), residual=max(r_sum, r_frac))
@@ -414,13 +425,13 @@ class Grid(System):
             if spec == 'T':
                 if not Pd <= Pb * (1 + 1e-6):
                     raise Violation('ordering', f'{m.ids} z={list(z)} T={val} [{m.pkg}]: P_dew={Pd!r} > P_bubble={Pb!r}',
-                                    match=dict(spec=spec, pkg=m.pkg), residual=Pd / Pb - 1)
+                                    match=dict(spec=spec, pkg=m.pkg), residual=rel(Pd, Pb))
             else:
                 if not Tb <= Td + 1e-4:
                     raise Violation('ordering', f'{m.ids} z={list(z)} P={val} [{m.pkg}]: T_bubble={Tb!r} > T_dew={Td!r}',
                                     match=dict(spec=spec, pkg=m.pkg), residual=Tb - Td)
             if n1:
-                same = abs(Pd / Pb - 1) <= 1e-12 if spec == 'T' else abs(Tb - Td) <= 1e-9
+                same = rel(Pd, Pb) <= 1e-12 if spec == 'T' else abs(Tb - Td) <= 1e-9
                 if not same:
                     raise Violation('single-component', f'{m.ids} z={list(z)} {spec}={val}: bubble {res["bubble"][:2]} and dew {res["dew"][:2]} differ',
                                     match=dict(kind='both', spec=spec, pkg=m.pkg))
@@ -433,7 +444,7 @@ class Grid(System):
             mid = P if spec == 'T' else T
             T2, P2, f2 = solve(m, kind, other, z, mid)
             back = T2 if spec == 'T' else P2
-            err = abs(back - val) if spec == 'T' else abs(back / val - 1)
+            err = abs(back - val) if spec == 'T' else rel(back, val)
             tol = 1e-4 if spec == 'T' else 1e-6
             ok = err <= tol
             point = 'grid'
@@ -454,7 +465,7 @@ class Grid(System):
         T0, P0, f0 = base; T1, P1, f1 = other
         spec = st.spec
         if spec == 'T':
-            err = abs(P1 / P0 - 1); bad = not err <= 1e-6
+            err = rel(P1, P0); bad = not err <= 1e-6
         else:
             err = abs(T1 - T0); bad = not err <= 1e-4
         ferr = float(np.max(np.abs(f1 - f0)))
@@ -584,7 +595,7 @@ class History(System):
             eq.BubblePoint._cached.update(saved[0]); eq.DewPoint._cached.update(saved[1])
             ac.DortmundActivityCoefficients._cached.update(saved_g)
         st.tag = 'multi' if npos(z) > 1 else 'single'
-        ok = abs(T / T2 - 1) <= 1e-12 and abs(P / P2 - 1) <= 1e-12 and np.allclose(f, f2, rtol=1e-12, atol=1e-15)
+        ok = rel(T, T2) <= 1e-12 and rel(P, P2) <= 1e-12 and f.shape == f2.shape and np.allclose(f, f2, rtol=1e-12, atol=1e-15)
         if not ok:
             raise Violation('history-dependent', f'{kind}{st.ids}({list(z)}, {spec}={val}) [{p}] after {list(st.calls[:-1])}: T={T!r} P={P!r} {f.tolist()}; '
                             f'fresh object: T={T2!r} P={P2!r} {f2.tolist()}', match=dict(kind=kind, spec=spec, pkg=p))
@@ -600,8 +611,4 @@ SYSTEMS = [
     Grid('c08.grid.gamma', ('dortmund',)),
 ]
 
-class _PCF(Grid):
-    def configs(self, tier, seed):
-        return super().configs(tier, seed) if tier == 'thorough' else []
-
-SYSTEMS.append(_PCF('c08.grid.pcf', ('dortmund+pcf',), families=('WEM',)))
+SYSTEMS.append(Grid('c08.grid.pcf', ('dortmund+pcf',), families=('WEM',)))
